@@ -36,8 +36,9 @@ def cleanup_scratch(d):
 
 def san_env(logdir, extra=None):
     env = dict(os.environ)
-    env['ASAN_OPTIONS'] = 'abort_on_error=1:detect_leaks=0:handle_abort=1:allocator_may_return_null=1:log_path=%s/asan' % logdir
-    env['UBSAN_OPTIONS'] = 'print_stacktrace=1:halt_on_error=1:log_path=%s/ubsan' % logdir
+    # exitcode=97 tells a sanitizer's own exit apart from the program calling exit(1) (gcc's UBSan does not abort)
+    env['ASAN_OPTIONS'] = 'abort_on_error=1:detect_leaks=0:handle_abort=1:allocator_may_return_null=1:exitcode=97:log_path=%s/asan' % logdir
+    env['UBSAN_OPTIONS'] = 'print_stacktrace=1:halt_on_error=1:abort_on_error=1:exitcode=97:log_path=%s/ubsan' % logdir
     env['TERM'] = 'dumb'
     for k in list(env):
         if k.startswith('DEBUG_') or k == 'BTCDEB_VERIF_REPL':
@@ -136,6 +137,14 @@ def crash_key(tool, sig, log, stderr=''):
     return '%s:%s:%s:%s' % (tool, kind, inner, entry or inner)
 
 
+def _read(path):
+    try:
+        with open(path, errors='replace') as fh:
+            return fh.read()
+    except OSError:
+        return ''
+
+
 # ------------------------------------------------------------------------------------------------
 # harness batches
 class HarnessCrash:
@@ -203,6 +212,11 @@ def run_harness_cases(bindir, cases, workdir, timeout_per_batch=600, extra_env=N
         idx = ids.index(last)
         if rc == 'timeout':
             hangs.append(last)
+        elif isinstance(rc, int) and 0 < rc < 97 and not read_san_logs(logdir).strip() and 'runtime error' not in _read(outf + '.err') and 'Sanitizer' not in _read(outf + '.err'):
+            # library code called exit(rc) (e.g. "parse error ... exit(1)"): the tool terminated by itself, not a crash
+            events[last].append('EXIT %s' % rc)
+            todo = todo[idx + 1:]
+            continue
         else:
             log = read_san_logs(logdir)
             try:
